@@ -1,6 +1,11 @@
 """C03 -- request frames conform to the native protocol specification."""
 from hypothesis import strategies as st
 
+# imported once in the parent process (workers are forked): cassandra.cluster alone costs ~3 s
+import cassandra.cluster  # noqa: F401
+import cassandra.protocol  # noqa: F401
+import cassandra.query  # noqa: F401
+
 from spec import proto
 from vlib.harness import hyp_part
 
